@@ -20,8 +20,9 @@ from sqfs_forge import Node, forge
 
 LEVEL = "proof"
 MODULE = "Sqfs.Props.C06"
-REQUIRED = ["Sqfs.C06.confinement", "Sqfs.C06.plan_paths_clean", "Sqfs.C06.resolve_stays_under_R",
-            "Sqfs.C06.treeSort_names_distinct"]
+REQUIRED = ["Sqfs.C06.confinement", "Sqfs.C06.confinement_raw", "Sqfs.C06.plan_paths_clean", "Sqfs.C06.plan_prefix_dirs",
+            "Sqfs.C06.resolve_stays_under_R", "Sqfs.C06.treeSort_names_distinct", "Sqfs.C06.below_R_only_tree_nodes",
+            "Sqfs.C06.skipped_reported_rest_unpacked", "Sqfs.C06.get_path_then_canonicalize_never_fails"]
 TRACE = ("mkdir,mkdirat,symlink,symlinkat,mknod,mknodat,open,openat,creat,lsetxattr,setxattr,fsetxattr,utimensat,utimes,"
          "futimesat,utime,fchownat,chown,lchown,fchown,fchmodat,chmod,fchmod,chdir,fchdir,unlink,unlinkat,rename,renameat,"
          "renameat2,link,linkat,truncate,rmdir,removexattr,lremovexattr,chroot,mount")
@@ -67,9 +68,10 @@ NAMES_BAD = [b".", b"..", b"a/b", b"/", b"/abs", b"../decoy_file", b"../decoy_di
              b".\0", b"\0", b"\0a", b"../..", b"ABS/decoy_dir", b"ABS/decoy_file", b"..//", b"/.."]
 NAMES_OK = [b"a", b"b", b"c", b"x", b"A", b"...", b"..a", b".a", b"a.", b"a..", b"a\0b", b"a\0", b"b\0/../x", b" ", b"\xff", b"\xc3\xa4",
             b"decoy_dir", b"decoy_file", b"R", b"-u", b"a b", b"\\", b"a\nb", b"\x01"]
-TARGETS = [b"../decoy_dir", b"../decoy_file", b"..", b".", b"/", b"ABS/decoy_dir", b"ABS/decoy_file", b"ABS", b"../..", b"x", b"a", b"b",
+# no target leaves `outer` (two levels above R): a *mutated* tool run as root must not be able to touch the real system
+TARGETS = [b"../decoy_dir", b"../decoy_file", b"..", b".", b"ABS/..", b"ABS/decoy_dir", b"ABS/decoy_file", b"ABS", b"../..", b"x", b"a", b"b",
            b"", b"\0", b"../decoy_dir\0junk", b"b/..", b"../R/b", b"../decoy_link", b"../nonexistent", b"a/b/c", b"../decoy_dir/",
-           b"../decoy_dir/inner", b"./../decoy_dir", b"//", b"loop", b"../outer_file"]
+           b"../decoy_dir/inner", b"./../decoy_dir", b"ABS//", b"loop", b"../outer_file"]
 XKEYS = [b"user.c06", b"trusted.c06", b"security.c06", b"user.a\0b", b"user.", b"trusted.overlay.opaque"]
 
 
@@ -151,7 +153,7 @@ def corpus_builtin():
         N(b"l1", "l", payload=b"../decoy_file", perm=0, uid=1234, gid=4321, mtime=1, xattrs=[(b"trusted.c06", b"v"), (b"user.c06", b"v")]),
         N(b"l2", "l", payload=b"../decoy_dir", perm=0, uid=1234, gid=4321, mtime=1, xattrs=[(b"trusted.c06", b"v")]),
         N(b"l3", "l", payload=b"ABS/decoy_dir", perm=0o7777, uid=1, gid=1, mtime=5, xattrs=[(b"security.c06", b"v")]),
-        N(b"l4", "l", payload=b"..", uid=9, gid=9, mtime=5), N(b"l5", "l", payload=b"/", uid=9, gid=9, mtime=5),
+        N(b"l4", "l", payload=b"..", uid=9, gid=9, mtime=5), N(b"l5", "l", payload=b"ABS/..", uid=9, gid=9, mtime=5),
         N(b"l6", "l", payload=b".", uid=9, gid=9, mtime=5, perm=0), N(b"l7", "l", payload=b"../..", uid=9, gid=9, mtime=5, perm=0)])))
     out.append(("empty symlink target", N(b"", "d", children=[N(b"a", "f"), N(b"l", "l", payload=b""), N(b"z", "f")])))
     out.append(("NUL symlink target", N(b"", "d", children=[N(b"l", "l", payload=b"\0../decoy_dir"), N(b"z", "f")])))
@@ -643,11 +645,11 @@ def build_cases(ctx):
     rng = ctx.rng
     builtin = corpus_builtin()
     for label, t in builtin:
-        fls = ALLFLAGS if not ctx.quick() else [ALLFLAGS[0], ALLFLAGS[15]] + rng.sample(ALLFLAGS[1:15], 4)
+        fls = ALLFLAGS
         for fl in fls:
             cases.append(("builtin:" + label, t, fl, b"/", rng.random() < 0.5))
     nbuiltin = len(cases) - ncorpus
-    nrand = 260 if ctx.quick() else 6000
+    nrand = 1200 if ctx.quick() else 30000
     for i in range(nrand):
         r = rng.random()
         if r < 0.35:
@@ -659,6 +661,8 @@ def build_cases(ctx):
         else:
             t = rnd_tree(rng, hostile=0.3, dup=0.05, depth=4, fan=4)
         fl = ALLFLAGS[i % 16] if rng.random() < 0.7 else rng.choice(ALLFLAGS)
+        if rng.random() < 0.25:                                     # -D -S -F -L -E prune the tree before unpacking
+            fl = (fl if fl != "-" else "") + "".join(c for c in "DSFLE" if rng.random() < 0.4) or "-"
         up = b"/"
         if rng.random() < 0.15:
             tops = [cstr(c.name) for c in t.children if cstr(c.name)] or [b"a"]
@@ -685,6 +689,10 @@ def run(ctx):
     if not ok:
         ctx.violation("proof:C06", "proof obligations of C06 no longer check: " + " | ".join(problems)[:1500],
                       {"broken": problems, "theorems_file": "lean/Sqfs/Props/C06.lean"}, found_input=False)
+    wok, wlog = ctx.lean_build(["Sqfs.Witness.C06"])
+    if not wok:
+        ctx.violation("proof:C06-witness", "the necessity witnesses (Sqfs/Witness/C06.lean) no longer check: the abstract file system may have lost the ability to express an escape",
+                      {"log": wlog[-1500:]}, found_input=False)
     rd = build_rd(ctx)
     cases, ncorpus, nbuiltin, nrand = build_cases(ctx)
     ctx.log("cases: %d corpus, %d builtin x flags, %d random" % (ncorpus, nbuiltin, nrand))
@@ -726,7 +734,7 @@ def run(ctx):
             if ndis <= 5:
                 ctx.violation("corr:" + key, "model and rdsquashfs disagree (nothing outside R changed): " + "; ".join(bad)[:900],
                               dict(replay_dict(rec, bad), model=ml[:3000]), found_input=False)
-    pbad, pstat = posix_probe(ctx, 150 if ctx.quick() else 3000)
+    pbad, pstat = posix_probe(ctx, 400 if ctx.quick() else 8000)
     for b in pbad[:5]:
         ctx.violation("posix-model:" + vlib.sha(json.dumps(b["script"]))[:12],
                       "the abstract POSIX model and the kernel disagree on a system-call script: kernel %s model %s (verdicts: kernel escaped=%s, model %s)" % (
@@ -739,7 +747,7 @@ def run(ctx):
     ctx.cov.update({
         "evaluations": len(recs) + pstat["scripts"],
         "distinct_nontrivial": len(nontrivial),
-        "rule": "forged images (corpus %d, %d builtin attack shapes x option subsets, %d seeded random hostile trees; all 16 subsets of -C -O -X -T; "
+        "rule": "forged images (corpus %d, %d builtin attack shapes x option subsets, %d seeded random hostile trees; all 16 subsets of -C -O -X -T, 25%% also with a subset of -D -S -F -L -E; "
                 "15%% with an unpack sub-path) unpacked by the ASan+UBSan rdsquashfs of the working tree under strace in a jail with decoys; "
                 "non-trivial = distinct (tree, flags, path) where an entry was skipped, the tool failed, or a system call failed" % (ncorpus, nbuiltin, nrand),
         "samples": samples,
